@@ -48,10 +48,12 @@ pub fn case_strategy() -> impl Strategy<Value = Case> {
     (
         prop::collection::vec(w_strategy(), 5..60),
         prop::collection::vec(w_strategy(), 30..90),
-        any::<bool>(),
+        prop::bool::weighted(0.4),
         any::<bool>(),
         prop::collection::vec(w_strategy(), 0..15),
-        prop_oneof![Just(10u8), Just(20u8), Just(35u8)],
+        // 60: the follower receives fewer entries after the install than its own threshold, so it restarts from the
+        // installed snapshot's catalogue entry rather than from a snapshot of its own
+        prop_oneof![1 => Just(10u8), 1 => Just(20u8), 1 => Just(35u8), 2 => Just(60u8)],
     )
         .prop_map(|(writes1, writes2, early, down_window, writes3, threshold)| Case {
             writes1,
@@ -148,7 +150,9 @@ pub fn served(c: &Cluster, node: usize) -> Result<Value, String> {
     members.sort();
     // a node that the leader counts as a member must itself act as a voter (Leader / Follower)
     let voter = m["state"] == "Leader" || m["state"] == "Follower";
-    Ok(serde_json::json!({"configs": configs, "namespaces": ns, "members": {"members": members, "acts_as_voter": voter}}))
+    // the sentinel writes of the harness are ordinary log entries too (one fresh key each)
+    let nudges: serde_json::Map<String, Value> = c.nudge_view(node)?.into_iter().map(|(k, v)| (k, v.map(Value::String).unwrap_or(Value::Null))).collect();
+    Ok(serde_json::json!({"configs": configs, "sentinels": nudges, "namespaces": ns, "members": {"members": members, "acts_as_voter": voter}}))
 }
 
 fn member_of_leader(c: &Cluster, id: u64) -> bool {
@@ -178,8 +182,10 @@ pub fn run_case(case: &Case, work: &Path, seed: u64) -> CaseReport {
         if std::env::var("RNV_C08_STRICT").is_err() && is_open("C08", KNOWN_FUZZY) && !m.contains("died") && !m.contains("does not") {
             // a divergence that disappears when compaction never runs concurrently with applies is the recorded
             // snapshot-not-atomic defect (root cause shared with C01); one that stays is reported
+            // ... and only when it is a rare timing event: it must not come back when the schedule is simply run again
             let r2 = run_case_variant(case, work, seed, Variant::Sequential);
-            if matches!(r2.verdict, Verdict::Pass | Verdict::Known(_)) {
+            let again = if matches!(r2.verdict, Verdict::Pass | Verdict::Known(_)) { Some(run_case_variant(case, work, seed, Variant::AsGenerated)) } else { None };
+            if matches!(r2.verdict, Verdict::Pass | Verdict::Known(_)) && !matches!(again.as_ref().map(|a| &a.verdict), Some(Verdict::Violation(_))) {
                 let mut labels = r.labels.clone();
                 labels.push("known_divergence_needs_compaction_concurrent_with_apply".into());
                 return CaseReport {
@@ -197,7 +203,7 @@ pub fn run_case_variant(case: &Case, work: &Path, seed: u64, variant: Variant) -
     let n = CASE_NO.fetch_add(1, Ordering::SeqCst);
     let mut env = BTreeMap::new();
     env.insert("RNACOS_RAFT_SNAPSHOT_LOG_SIZE".to_string(), case.threshold.to_string());
-    env.insert("RUST_LOG".to_string(), "warn,rnacos::raft::filestore::core=info".to_string());
+    env.insert("RUST_LOG".to_string(), std::env::var("RNV_NODE_LOG").unwrap_or_else(|_| "warn,rnacos::raft::filestore::core=info".to_string()));
     let mut c = match Cluster::new(work, &format!("c08-{}", n), 2, seed.wrapping_mul(1000).wrapping_add(n * 13 + std::process::id() as u64), env) {
         Ok(c) => c,
         Err(e) => {
@@ -296,6 +302,16 @@ fn run_case_inner(case: &Case, c: &mut Cluster, variant: Variant) -> CaseReport 
         let never_contacted = fm.as_ref().map(|m| m["current_leader"].is_null() && m["last_log_index"].as_u64() == Some(0)).unwrap_or(false);
         if never_contacted {
             return discard(format!("join request lost {} times; leader log: {}", join_attempts, c.log_tail(0)));
+        }
+    }
+    if q.is_err() {
+        // The property speaks about a node that IS caught up (by log or snapshot). A joiner that never received a
+        // single entry (log index 0, no snapshot installed) although the leader lists it - a join handshake that
+        // raced with the write burst, seen about once in 50 late joins, see DESIGN.md "observations" - never got
+        // that far: inconclusive for C08, counted as discarded.
+        let nothing_received = c.metrics(1).map(|m| m["last_log_index"].as_u64() == Some(0) && m["last_applied"].as_u64() == Some(0)).unwrap_or(false);
+        if nothing_received && !installed_snapshot(c, 1) && c.is_running(1) {
+            return discard(format!("joiner never received anything from the leader: {}", q.as_ref().err().cloned().unwrap_or_default()));
         }
     }
     let installed = installed_snapshot(c, 1);
@@ -398,10 +414,14 @@ fn run_case_inner(case: &Case, c: &mut Cluster, variant: Variant) -> CaseReport 
 }
 
 pub fn main(ctx: &Ctx) -> i32 {
+    // real clusters: one case legitimately takes minutes (formation, time-outs, re-runs for classification)
+    if std::env::var("RNV_CASE_TIMEOUT_MS").is_err() {
+        std::env::set_var("RNV_CASE_TIMEOUT_MS", "900000");
+    }
     let work = work_dir(ctx);
     let fin = || Finish {
         level: "exploration",
-        rule: "schedules on real processes: a leader with snapshot threshold 10/20/35, generated write histories on the leader (config publish/remove over 24 keys, namespace add/update/remove; 35..165 writes in three batches), a follower that joins before the writes (optionally killed during the second batch) or only after them; after the quiescence rule (same leader everywhere, last_applied == leader's last log index) the follower's served data (GET of every key, user-created namespaces, raft members) must equal the leader's - again after the follower is killed and restarted. A failing schedule is re-run in its Sequential variant (follower never compacts its own log, 150 ms after every leader write): only a failure that stays is reported, one that disappears is the recorded compaction-concurrent-with-apply finding. non-trivial = the follower really received an InstallSnapshot (its log shows create_snapshot); distinct = hash of the schedule".into(),
+        rule: "schedules on real processes: a leader with snapshot threshold 10/20/35/60, generated write histories on the leader (config publish/remove over 24 keys, namespace add/update/remove; 35..165 writes in three batches), a follower that joins before the writes (optionally killed during the second batch) or only after them; after the quiescence rule (same leader everywhere, last_applied == leader's last log index) the follower's served data (GET of every key, user-created namespaces, raft members) must equal the leader's - again after the follower is killed and restarted. A failing schedule is re-run in its Sequential variant (follower never compacts its own log, 150 ms after every leader write): a failure that stays there, or that comes back when the schedule is simply run once more, is reported; one that disappears in both is the recorded (timing dependent) compaction-concurrent-with-apply finding. non-trivial = the follower really received an InstallSnapshot (its log shows create_snapshot); distinct = hash of the schedule".into(),
         assumptions: vec![
             "message schedules between the processes are sampled, not controlled".into(),
             "user rows are not written in this check (console login required); weak namespaces not compared".into(),
